@@ -629,6 +629,109 @@ def record_type_item():
             "Definition gen_record_type (record_output slot_none : bool) : N := (if record_output then %s else %s).\n" % (branch(target.body), branch(target.orelse)))
 
 
+def spawn_item():
+    """RunTaskExecutable.start_execution: the environment handed to the task and how the process is started.
+    Environment values: 0 str(self._output_path), 1 SEPARATOR.join(map(str, self._deps_output_paths)), 2 self._identifier.name,
+    3 str(slot).  Actions on the slot branches: 1 set the key to str(slot), 2 pop the key."""
+    rel = "conductor/execution/ops/run_task_executable.py"
+    f = _find_method(rel, "RunTaskExecutable", "start_execution")
+    tree = ast.parse(open(os.path.join(SRC, rel), encoding="utf-8").read())
+    from_config = set()
+    for node in tree.body:
+        if isinstance(node, ast.ImportFrom) and node.module == "conductor.config":
+            from_config |= {a.name for a in node.names if a.asname is None}
+    values = {"str(self._output_path)": 0, "DEPS_ENV_PATH_SEPARATOR.join(map(str, self._deps_output_paths))": 1, "self._identifier.name": 2}
+
+    def key(node):
+        if isinstance(node, ast.Name) and node.id in CONFIG_NAMES and node.id in from_config:
+            return "cfg_" + node.id
+        raise Unsupported("environment key outside the supported fragment: %s" % ast.unparse(node))
+
+    cands = [st for st in _walk_stmts(f.body) if isinstance(st, ast.Assign) and len(st.targets) == 1 and isinstance(st.targets[0], ast.Name)
+             and isinstance(st.value, ast.Dict) and st.value.keys and st.value.keys[0] is None and ast.unparse(st.value.values[0]) == "os.environ"]
+    if len(cands) != 1:
+        raise Unsupported("the environment is not built by exactly one dict display starting from **os.environ")
+    ev = cands[0].targets[0].id          # the name of the local variable (env_vars)
+    uses = lambda st: any(isinstance(n, ast.Name) and n.id == ev for n in ast.walk(st))
+    env_stmts = [st for st in _walk_stmts(f.body) if not isinstance(st, (ast.Try, ast.If, ast.With, ast.For, ast.While)) and uses(st)]
+    ifs = [st for st in _walk_stmts(f.body) if isinstance(st, ast.If) and uses(st)]
+    dict_st = cands
+    d = dict_st[0].value
+    if any(k is None for k in d.keys[1:]):
+        raise Unsupported("the environment merges a second mapping")
+    overrides = []
+    for k, v in zip(d.keys[1:], d.values[1:]):
+        src = ast.unparse(v)
+        if src not in values:
+            raise Unsupported("environment value outside the supported fragment: %s" % src)
+        overrides.append("(%s, %d%%N)" % (key(k), values[src]))
+    if len(ifs) != 1 or ast.unparse(ifs[0].test) not in ("slot is not None", "slot is None") or not ifs[0].orelse:
+        raise Unsupported("env_vars is not adjusted by exactly one `if slot is [not] None: ... else: ...`")
+
+    def actions(stmts):
+        out = []
+        for st in stmts:
+            if isinstance(st, ast.Assign) and len(st.targets) == 1 and isinstance(st.targets[0], ast.Subscript) and ast.unparse(st.targets[0].value) == ev \
+                    and ast.unparse(st.value) == "str(slot)":
+                out.append("(1%%N, %s)" % key(st.targets[0].slice))
+            elif isinstance(st, ast.Expr) and isinstance(st.value, ast.Call) and ast.unparse(st.value.func) == ev + ".pop" and len(st.value.args) == 2 \
+                    and ast.unparse(st.value.args[1]) == "None" and not st.value.keywords:
+                out.append("(2%%N, %s)" % key(st.value.args[0]))
+            else:
+                raise Unsupported("statement on env_vars outside the supported fragment: %s" % ast.unparse(st))
+        return out
+
+    some, none = actions(ifs[0].body), actions(ifs[0].orelse)
+    if ast.unparse(ifs[0].test) == "slot is None":
+        some, none = none, some
+    # the process
+    popens = [st for st in _walk_stmts(f.body) if isinstance(st, ast.Assign) and isinstance(st.value, ast.Call) and ast.unparse(st.value.func) == "subprocess.Popen"]
+    if len(popens) != 1:
+        raise Unsupported("start_execution does not start exactly one subprocess.Popen")
+    call = popens[0].value
+    if len(call.args) != 1 or ast.unparse(call.args[0]) != "[self._run]":
+        raise Unsupported("Popen's command is not [self._run]")
+    kw = {k.arg: k.value for k in call.keywords}
+    allowed = {"shell", "cwd", "executable", "stdout", "stderr", "env", "start_new_session"}
+    if None in kw or set(kw) - allowed:
+        raise Unsupported("Popen keyword outside the supported fragment: %s" % sorted(str(x) for x in set(kw) - allowed))
+    for st in env_stmts:
+        if st is dict_st[0] or st is popens[0] or any(st in b for b in (ifs[0].body, ifs[0].orelse)):
+            continue
+        raise Unsupported("another statement uses env_vars: %s" % ast.unparse(st))
+    if ast.unparse(kw.get("env", ast.Constant(None))) != ev:
+        raise Unsupported("Popen is not given env=%s" % ev)
+    exe = kw.get("executable")
+    if not (isinstance(exe, ast.Constant) and isinstance(exe.value, str)):
+        raise Unsupported("Popen's executable is not a string literal")
+
+    def flag(name):
+        v = kw.get(name)
+        return "true" if isinstance(v, ast.Constant) and v.value is True else "false"
+
+    # the command line: RunTaskExecutable.__init__
+    init = _find_method(rel, "RunTaskExecutable", "__init__")
+    runs = [st for st in _walk_stmts(init.body) if isinstance(st, ast.Assign) and ast.unparse(st.targets[0]) == "self._run"]
+    run_ok = len(runs) == 1 and ast.unparse(runs[0].value) == "' '.join([run, self._args.serialize_cmdline(), self._options.serialize_cmdline()])"
+    others = [st for st in _walk_stmts(f.body) if isinstance(st, ast.Assign) and ast.unparse(st.targets[0]) in ("self._run", "self._working_path", "self._output_path", "self._deps_output_paths")]
+    if others:
+        raise Unsupported("start_execution reassigns %s" % ast.unparse(others[0].targets[0]))
+    return ("(* conductor/execution/ops/run_task_executable.py RunTaskExecutable.start_execution: env_vars = {**os.environ, key: value, ...}\n"
+            "   (values: 0 str(self._output_path), 1 DEPS_ENV_PATH_SEPARATOR.join(map(str, self._deps_output_paths)), 2 self._identifier.name),\n"
+            "   then with / without a slot (actions: 1 env_vars[key] = str(slot), 2 env_vars.pop(key, None)); subprocess.Popen([self._run], ...) *)\n"
+            "Definition gen_env_overrides : list (list N * N) := [%s].\n"
+            "Definition gen_env_slot_some : list (N * list N) := [%s].\n"
+            "Definition gen_env_slot_none : list (N * list N) := [%s].\n"
+            "Definition gen_popen_shell : bool := %s.\n"
+            "Definition gen_popen_executable : list N := %s. (* %s *)\n"
+            "Definition gen_popen_cwd_is_working_path : bool := %s.\n"
+            "Definition gen_popen_new_session : bool := %s.\n"
+            "Definition gen_run_is_run_args_options_joined_by_space : bool := %s.\n"
+            % ("; ".join(overrides), "; ".join(some), "; ".join(none), flag("shell"), coq_str(exe.value), _cmt(repr(exe.value)),
+               "true" if ast.unparse(kw.get("cwd", ast.Constant(None))) == "self._working_path" else "false", flag("start_new_session"),
+               "true" if run_ok else "false"))
+
+
 def combine_item():
     """CombineOutputs.start_execution: what happens to ONE dependency, as a function of what the file system says
     about its directory and about the entry found under its name.  Result codes: 0 skipped (continue), 1 the entry
@@ -875,7 +978,7 @@ def generate():
         failures["task_type_table"] = "%s: %s" % (type(ex).__name__, ex)
         parts.append("(* task_type_table: NOT TRANSLATED: %s *)\n" % str(ex).replace("*)", "* )"))
     for coqname, fn in (("gen_gate_open", gate_item), ("gen_new_version", version_item), ("gen_loop_goes_on", loop_item), ("gen_wants_slot", slot_item),
-                        ("gen_prune", prune_item), ("gen_should_run", should_run_item), ("gen_validate_args", validate_args_item), ("gen_finish", finish_item), ("gen_record_type", record_type_item), ("gen_combine_decision", combine_item), ("gen_gc_decision", gc_item), ("gen_restore_before_loop", restore_item)):
+                        ("gen_prune", prune_item), ("gen_should_run", should_run_item), ("gen_validate_args", validate_args_item), ("gen_finish", finish_item), ("gen_record_type", record_type_item), ("gen_env_overrides", spawn_item), ("gen_combine_decision", combine_item), ("gen_gc_decision", gc_item), ("gen_restore_before_loop", restore_item)):
         try:
             parts.append(fn())
         except Exception as ex:  # pylint: disable=broad-except
